@@ -1,7 +1,7 @@
 (* C02 -- the parsers accept exactly the documented language; everything else is SyntaxError.
    Models: Model/Lex.v (condition expressions), Model/Ahb.v (AHB-expression scanner, resolver's try/except structure). *)
 From Ahb Require Import Model.Prelude Model.Grammar Gen.Gen_grammar Gen.Gen_ahbgrammar Model.Lex Model.EvalAhb Model.Ahb
-  Proofs.C01_parse Proofs.C02_language Proofs.C02_resolver.
+  Proofs.C01_parse Proofs.C02_language Proofs.C02_resolver Proofs.C01_lexprint Proofs.C01_print Proofs.C02_lexsound.
 
 Theorem C02_condition_only_syntaxerror : forall s, (exists t, parse_cond s = Ok t) \/ parse_cond s = Exn SyntaxErr.
 Proof. exact parse_cond_only_syntaxerror. Qed.
@@ -31,3 +31,18 @@ Theorem C02_ahb_condition_part_checked : forall s ps, parse_ahb s = Ok ps ->
   parse_cond s = Exn SyntaxErr -> resolve_str s = Exn SyntaxErr.
 Proof. exact condition_part_checked. Qed.
 Print Assumptions C02_ahb_condition_part_checked.
+
+(* the accepted language at character level: the accepted strings are exactly the writings (render: any spelling / letter case of
+   an operator, any white space between tokens and inside square brackets, ptok_ok: keys are non-empty ASCII digit strings, package keys
+   digits + P with an optional repeatability n..m, time conditions UB1-UB3) of the bracketed token sequence of a forest derivable in
+   the ambiguous grammar of the docstring *)
+Theorem C02_accepted_language : forall s, (exists t, parse_cond s = Ok t) <->
+  exists its l trail, (exists e, GFc its e) /\ Forall ok_pair l /\ all_ws trail = true /\
+                      map (fun p => tok_of (snd p)) l = untoks its /\ s = render l trail.
+Proof. exact accepted_language. Qed.
+Print Assumptions C02_accepted_language.
+
+Theorem C02_lexer_language : forall s ts, lex s = Some ts <->
+  exists l trail, Forall ok_pair l /\ all_ws trail = true /\ s = render l trail /\ ts = map (fun p => tok_of (snd p)) l.
+Proof. exact lex_iff. Qed.
+Print Assumptions C02_lexer_language.
